@@ -283,6 +283,8 @@ def _worker(args):
             budget = getattr(mod, 'BUDGET_S', {}).get(tier)
             if phase == 'search':
                 budget = min(budget or 180, 180)
+            elif phase == 'deep':
+                budget = min(budget or 150, 150)
             import itertools
             stream = mod.cases(tier, seed, phase)
             if phase == 'main':
